@@ -420,6 +420,8 @@ where
                     .duration_since(UNIX_EPOCH)
                     .expect("time error")
                     .as_secs();
+                #[cfg(passage_verif)]
+                let now = crate::verif::clock(now);
 
                 if cookie.client_addr.ip() != self.client_address.ip() || expires_at < now {
                     debug!("invalid auth cookie payload received, skipping auth cookie");
@@ -600,6 +602,11 @@ where
                     target: Some(target.identifier.clone()),
                     profile_properties,
                     extra: Default::default(),
+                };
+                #[cfg(passage_verif)]
+                let cookie = AuthCookie {
+                    timestamp: crate::verif::clock(cookie.timestamp),
+                    ..cookie
                 };
 
                 let auth_payload = serde_json::to_vec(&cookie)?;
